@@ -325,7 +325,10 @@ BridgeTxs == {Tx(2, n, <<a>>) : n \in {0, 1}, a \in BridgeActs}
 \* fees and validator updates have already accumulated in the block, a refused IBC relay after a paid action
 ReplayInit ==
   {[BaseState EXCEPT !.bridge[3] = MkBridge("nria", 3, 2, FALSE), !.bridge[4] = MkBridge("nria", 4, 2, FALSE),
-                     !.relayers = {2}, !.sudo = sd] : sd \in {1, 2}}
+                     !.relayers = {2}, !.sudo = sd,
+                     \* the signer may itself be a bridge account (its nonce must step all the same; transfers and
+                     \* locks signed by it are refused, unlocks / bridge transfers / withdrawals of bridge 3 are not)
+                     !.bridge[2] = IF sb THEN MkBridge("nria", 2, 2, FALSE) ELSE NoBridge] : sd \in {1, 2}, sb \in BOOLEAN}
 ReplayActs ==
   {Transfer(1, "nria", 1, "nria"), BridgeLock(4, "nria", 1, "nria"), BridgeUnlock(3, 1, 1, "e1", "nria"),
    BridgeTransfer(3, 4, 1, "e1", "nria"), Ics20Withdrawal("nria", 1, 3, "e1", 1, "nria"),
